@@ -31,7 +31,11 @@ K_EXHAUST = "cabi:amd64:split-aggregate-after-register-exhaustion"
 K_NESTED = "cabi:amd64:nested-struct-padding-split"
 K_CAPTURE = "callback:capturing-closure-as-c-function-pointer"
 K_RETLOAD = "cabi:return-load-shortcut:stale-pointee"
+K_GOBYTES = "cgo:GoBytes:aliases-c-memory"
+K_CBYTES = "cgo:CBytes:empty-slice-panics"
 OPAQUE = os.path.join(VERIF, "harness", "e2e", "overlay", "zz_verif_opaque.go.txt")
+
+CORPUS_INP = ["{ddd}", "{qqq}", "{[3[4f]]}"]   # v = rotate(&v), m = transpose(&m) of seeded change C09-5
 
 CORPUS_SIGS = [  # (kind, shape, pre, post)  — DESIGN.md §8 #22 and the nested-padding witnesses, always run first
     ("arg", "{db}", "qqqqqq", ""), ("echo", "{db}", "qqqqqqd", ""), ("cbs", "{pf}", "qqqqqq", "f"), ("cbi", "{fbff}", "qqqqqqq", ""),
@@ -95,10 +99,13 @@ def run(ctx, args):
     n_sig = int((600 if quick else 6000) * scale)            # signatures rewritten in-process
     n_e2e_shapes = int((150 if quick else 1200) * scale)     # shapes executed end to end
     per_prog = 800 if quick else 600          # cases per generated program
+    round2 = os.environ.get("VERIF_C09_ROUND2", "1") != "0"   # test hook (A/B timing): 0 = without the call-site / aliasing / cgo-history parts
     stats = {}
     st = lean_check(ctx, ["LlgoVerif.Props.C09"], ["LlgoVerif/Props/C09.lean"],
                     extra_files=["LlgoVerif/Model/CAbi.lean", "LlgoVerif/Spec/SysV.lean", "LlgoVerif/Spec/AAPCS64.lean",
-                                 "LlgoVerif/Lemmas/CAbi.lean", "LlgoVerif/Lemmas/CAbiLayout.lean"],
+                                 "LlgoVerif/Lemmas/CAbi.lean", "LlgoVerif/Lemmas/CAbiLayout.lean",
+                                 "LlgoVerif/Model/CAbiCall.lean", "LlgoVerif/Lemmas/CAbiCall.lean",
+                                 "LlgoVerif/Model/CgoStr.lean", "LlgoVerif/Lemmas/CgoStr.lean"],
                     leanchecker=(ctx.tier == "thorough"))
     for name, s in st.items():
         if s != "ok":
@@ -133,7 +140,7 @@ def run(ctx, args):
         shapes.append(t)
     for _, s, _, _ in CORPUS_SIGS:
         add_shape(G.parse(s))
-    for s in G.BOUNDARY:
+    for s in G.BOUNDARY + CORPUS_INP:
         add_shape(G.parse(s))
     corpus_dir = os.path.join(VERIF, "corpus", "C09")
     if os.path.isdir(corpus_dir):
@@ -224,6 +231,10 @@ def run(ctx, args):
     sig_mism = [(l, a, b) for l, a, b in zip(sig_lines, sreal, smodel) if a != b]
     ctx.log("signatures: %d, mismatches %d" % (len(sig_lines), len(sig_mism)))
 
+    # ---------------------------------------------------------------- call sites (transformCallInstr): real vs model
+    cs_stats = callsite_check(ctx, harness, modeld, shapes, codes, shape_info, (24 if quick else 200) if round2 else 0)
+    stats["call_sites"] = cs_stats
+
     # ---------------------------------------------------------------- spec validation against clang
     spec_val = validate_spec_with_clang(ctx, shapes[:(400 if quick else 3000)], codes, shape_info, modeld, rng)
     stats["spec_validation_clang"] = spec_val
@@ -276,6 +287,24 @@ def run(ctx, args):
     # copy through a pointer, mutate the pointee, return the copy (the result must carry the ORIGINAL values)
     for si, t in enumerate(run_shapes[:(60 if quick else 400)]):
         cases.append(G.Case(len(cases), "cbm", si, t, [], [], rng, closure=(si % 2 == 0)))
+    # M = f(&M) / f(M, &M): the result is stored to (the by-value argument is loaded from) memory the C callee can reach;
+    # every Go call-site form x both callee styles, on aggregates returned/passed in memory and in registers
+    mem_si = [si for si, t in enumerate(run_shapes) if shape_info[G.code(t)]["realret"] == "memory"]
+    reg_si = [si for si, t in enumerate(run_shapes) if shape_info[G.code(t)]["realret"] != "memory"]
+    for s_ in CORPUS_INP:
+        if s_ in idx_of and idx_of[s_] not in mem_si[:(24 if quick else 80)]:
+            mem_si.insert(0, idx_of[s_])
+    dests = list(G.INP_DESTS)
+    srcs = list(G.ARGP_SRCS)
+    n_alias = 0
+    for j, si in enumerate((mem_si[:(24 if quick else 80)] + reg_si[:(8 if quick else 20)]) if round2 else []):
+        t = run_shapes[si]
+        reps = 3 if si in mem_si else 1
+        for r_ in range(reps):
+            d_ = dests[(j * 3 + r_) % len(dests)]
+            cases.append(G.Case(len(cases), "inp", si, t, [], [], rng, dest=d_, style=("perm", "touch")[(j + r_) % 2]))
+        cases.append(G.Case(len(cases), "argp", si, t, [], [], rng, dest=srcs[j % len(srcs)]))
+        n_alias += reps + 1
     # a Go func literal that CAPTURES a variable, handed to C as a callback (a few per run; they may kill the process)
     for j in range(3):
         t = run_shapes[(j * 11) % len(run_shapes)]
@@ -287,7 +316,16 @@ def run(ctx, args):
     for c, l in zip(cases, placed):
         f = dict(x.split("=", 1) for x in l.split(" ") if "=" in x)
         pred[c.idx] = f
-    e2e_stats = {"cases": len(cases), "shapes": len(run_shapes), "positions_covered": len(pos_cov), "runs": []}
+    e2e_stats = {"cases": len(cases), "shapes": len(run_shapes), "positions_covered": len(pos_cov), "runs": [],
+                 "aliasing_cases": n_alias}
+    # the generator's expectation for `M = f(&M)` (callee style 'perm') against the Lean specification of the call
+    inp_perm = [c for c in cases if c.kind == "inp" and c.style == "perm"]
+    il = run_lines([modeld], ["inplace %d %d %s" % (200 if c.dest == "other" else 100, len(c.perm), " ".join(str(x) for x in c.perm)) for c in inp_perm])[0] if inp_perm else []
+    bad_gen = [(c.describe(), l) for c, l in zip(inp_perm, il)
+               if "spec=" + ",".join(str(x + 1) for x in c.perm) + " " not in l or "temp=" + ",".join(str(x + 1) for x in c.perm) + " " not in l]
+    if bad_gen:
+        ctx.report_broken("C09 generator: expected cells of M = f(&M) differ from Model/CAbiCall.lean specCall / implCall(temp)", {"first": bad_gen[:3]})
+    e2e_stats["inplace_model_dest_would_differ"] = sum(1 for l in il if l.split(" dest=")[1].split(" ")[0] != l.split(" spec=")[1].split(" ")[0])
     failures = {}   # case idx -> {opt: detail}
     progs = [cases[i:i + per_prog] for i in range(0, len(cases), per_prog)]
     # C-to-C reference (validates the expected values and the C side with the host compilers); runs beside the llgo builds
@@ -324,9 +362,22 @@ def run(ctx, args):
     # judge every failing case; compare observation with the model's prediction
     by_idx = {c.idx: c for c in cases}
     n_known, n_pred_mism = 0, []
-    classes = {"exhaustion": 0, "nested": 0, "capture": 0, "return-load-shortcut": 0, "other": 0}
+    classes = {"exhaustion": 0, "nested": 0, "capture": 0, "return-load-shortcut": 0, "other": 0, "result-aliases-input": 0,
+               "byval-aliases-source": 0}
     for c in cases:
         p = pred[c.idx]
+        if c.kind in ("inp", "argp") and c.idx in failures and shape_info[G.code(c.t)]["sound"] and p.get("eq") == "1":
+            # nothing about registers: the object the callee fills (reads) is not private to the call
+            cl = "result-aliases-input" if c.kind == "inp" else "byval-aliases-source"
+            classes[cl] += 1
+            if classes[cl] <= 3:
+                rep = dict(c.describe())
+                rep.update({"observed": failures[c.idx], "expected_words": ["%x" % w for w in c.expected()],
+                            "call_site_lowering_seen_in_process": cs_stats.get("first_mismatch")})
+                what = ("M = f(&M): the C callee fills its result object while it reads *p, and the two are the same memory" if c.kind == "inp"
+                        else "f(M, &M): the by-value argument does not hold the value M had when the call was made / M changed")
+                ctx.report("cabi:callsite:%s:%s:%s:%s" % (c.kind, c.dest, c.style or "-", G.code(c.t)), what + ": " + c.describe()["go_call_site"], rep)
+            continue
         if c.kind == "cbm" and c.idx in failures and shape_info[G.code(c.t)]["sound"] and \
                 shape_info[G.code(c.t)]["realret"].startswith("coerce "):
             # AttrWidthType result + `r := *p; mutate; return r`: transformFuncBody re-reads the load's source at the return
@@ -384,6 +435,8 @@ def run(ctx, args):
                           (len(mism), len(sig_mism), (mism + sig_mism)[0]))
         if not ctx.violations:
             ctx.report_broken("correspondence C09 classification real-vs-model", {"first": (mism + sig_mism)[:5]})
+    if cs_stats["mismatches"] and not ctx.violations:
+        ctx.report_broken("correspondence C09 call-site rewriting (transformCallInstr) real-vs-model", {"first": cs_stats["first"]})
     if n_pred_mism and not ctx.violations:
         ctx.broken.append("placement model disagrees with execution on %d cases" % len(n_pred_mism))
         ctx.report_broken("correspondence C09 placement model vs execution", {"first": n_pred_mism[:5]})
@@ -413,7 +466,7 @@ def run(ctx, args):
     ctx.assumptions += ["only amd64 executes; arm64 is covered for the classifier only (model + in-process + clang), arm/riscv/386/wasm/esp32 not at all",
                         "natural layout only (no packed structs, bit-fields, long double, vectors, zero-length arrays, unions)",
                         "varargs C functions are not generated"]
-    evaluations = stats["arm64"]["lines"] + len(lines) + len(sig_lines) + len(e2e_stats["runs"]) * 0 + sum(r["cases"] for r in e2e_stats["runs"]) + cstr_stats.get("cases", 0)
+    evaluations = cs_stats["contexts"] + stats["arm64"]["lines"] + len(lines) + len(sig_lines) + len(e2e_stats["runs"]) * 0 + sum(r["cases"] for r in e2e_stats["runs"]) + cstr_stats.get("cases", 0)
     stats.update({"shapes_classified": len(codes), "kinds": kinds_hist, "unsound_on_real_code": n_unsound, "unsound_on_naturally_laid_out_shapes": n_unsound_natural,
                   "natural_shapes": sum(1 for c in codes if shape_info[c]["natural"]),
                   "size_le16": sum(1 for t in shapes if G.layout(t)[0] <= 16), "nested": sum(1 for t in shapes if not G.is_flat(t)),
@@ -541,6 +594,54 @@ def validate_spec_with_clang(ctx, shapes, codes, shape_info, modeld, rng):
 
 
 
+# ------------------------------------------------------------------------------------------------ call sites
+def callsite_check(ctx, harness, modeld, shapes, codes, shape_info, n):
+    """transformCallInstr on generated call-site contexts (result use x argument definition), for aggregates returned and
+    passed in memory: the REAL TransformModule (optimize on and off) against Model/CAbiCall.lean lowerRet / lowerByval"""
+    d = os.path.join(ctx.scratch, "callsite")
+    os.makedirs(d, exist_ok=True)
+    sel = [t for t, c in zip(shapes, codes) if shape_info[c]["real"] == "memory" and shape_info[c]["realret"] == "memory"][:n]
+    if not sel:
+        return {"shapes": 0, "contexts": 0, "mismatches": 0, "first": [], "first_mismatch": None, "lowerings": {}}
+    req, meta = [], []
+    for i, t in enumerate(sel):
+        src, names = G.callsite_module(t)
+        path = os.path.join(d, "cs%d.ll" % i)
+        open(path, "w").write(src)
+        for opt in ("1", "0"):
+            req.append("xform %s %s" % (opt, path))
+            meta.append((G.code(t), opt))
+    real, _, err = run_lines([harness], req)
+    if len(real) != len(req) or any(r.startswith("error") or r == "bad-op" for r in real):
+        raise HarnessBuildError("harness/c09 xform failed: %s\n%s" % ([r for r in real if r.startswith("error")][:2], err[-1500:]))
+    ctxs = [(u, a) for u in G.CS_USES for a in G.CS_ARGS]
+    model, _, _ = run_lines([modeld], ["callsite nextstore=%d argload=%d" % (1 if G.CS_USES[u][1] else 0, 1 if G.CS_ARGS[a] else 0) for u, a in ctxs])
+    mism, n_ctx, hist = [], 0, {}
+    for (code_, opt), line in zip(meta, real):
+        got = {}
+        for ent in line.split(";"):
+            f = ent.split()
+            got[f[0][len("caller_"):]] = dict(x.split("=", 1) for x in f[1:])
+        for (u, a), ml in zip(ctxs, model):
+            n_ctx += 1
+            g = got.get("%s_%s" % (u, a), {})
+            dest = G.CS_USES[u][0]
+            sret = g.get("sret")
+            sret = "temp" if sret == "temp" else ("dest" if sret == dest else "other:%s" % sret)
+            byv = g.get("byval")
+            byv = "temp" if byv == "temp" else ("source" if byv == "src" else "other:%s" % byv)
+            want = dict(x.split("=", 1) for x in ml.split())
+            if G.CS_ARGS[a] is None:
+                byv = want["byval"] = "-"
+            hist["sret=%s byval=%s" % (sret, byv)] = hist.get("sret=%s byval=%s" % (sret, byv), 0) + 1
+            if sret != want["sret"] or byv != want["byval"]:
+                mism.append({"shape": code_, "optimize": opt, "result_use": u, "argument": a, "real": "sret=%s byval=%s" % (sret, byv), "model": ml})
+    if mism:
+        ctx.broken.append("call-site rewriting real vs Lean model: %d of %d contexts differ, e.g. %s" % (len(mism), n_ctx, mism[0]))
+    ctx.log("call sites: %d shapes x %d contexts x optimize{1,0}; real vs model mismatches %d" % (len(sel), len(ctxs), len(mism)))
+    return {"shapes": len(sel), "contexts": n_ctx, "mismatches": len(mism), "first": mism[:5], "first_mismatch": mism[0] if mism else None, "lowerings": hist}
+
+
 # ------------------------------------------------------------------------------------------------ arm64
 def clang64_class(p):
     t = p.strip()
@@ -643,7 +744,7 @@ def write_prog(ctx, shapes, cases, name):
     src = G.build_sources(shapes, cases)
     d = os.path.join(ctx.scratch, name)
     os.makedirs(os.path.join(d, "_wrap"), exist_ok=True)
-    for fn in ("shapes.h", "callee.c", "refmain.c"):
+    for fn in ("shapes.h", "callee.c", "inplace.c", "refmain.c"):
         open(os.path.join(d, "_wrap", fn), "w").write(src[fn])
     return d, src
 
@@ -672,10 +773,14 @@ def build_echo(ctx, shapes, cases, name, opt, cside):
     main = src["main.go"]
     if cside == "gcc-object":
         w = os.path.join(d, "_wrap")
-        p = tool(["gcc", "-O2", "-w", "-c", "callee.c", "-o", "vecho_gcc.o"], cwd=w)
-        if p.returncode != 0:
-            raise RuntimeError("gcc failed on the generated callee: " + p.stderr[-800:])
-        main = main.replace('\tLLGoFiles   = "@LLGOFILES@"\n', "").replace("@LLGOPACKAGE@", "link: -L%s -l:vecho_gcc.o" % w)
+        # the callees of kind 'inp' are compiled by clang also here: gcc never fills a result object while it still reads
+        # its input (it would hide a result object that aliases the input), clang constructs the result in place
+        for c in (["gcc", "-O2", "-w", "-DVERIF_NO_INPLACE", "-c", "callee.c", "-o", "vecho_gcc.o"],
+                  ["clang", "-O2", "-w", "-c", "inplace.c", "-o", "vecho_inp.o"]):
+            p = tool(c, cwd=w)
+            if p.returncode != 0:
+                raise RuntimeError("%s failed on the generated callee: %s" % (c[0], p.stderr[-800:]))
+        main = main.replace('\tLLGoFiles   = "@LLGOFILES@"\n', "").replace("@LLGOPACKAGE@", "link: -L%s -l:vecho_gcc.o -l:vecho_inp.o" % w)
     else:
         main = main.replace("@LLGOFILES@", "_wrap/callee.c").replace("@LLGOPACKAGE@", "link")
     e2e.write_module(d, {"main.go": main})
@@ -760,7 +865,7 @@ def replay_crash_shapes(ctx, crash_shapes, shape_info, rng):
 
 # ------------------------------------------------------------------------------------------------ C strings
 NATIVE_FILES = ["map.go", "alg.go", "hash64.go", "z_map.go", "type.go", "errors.go", "z_face.go", "z_type.go", "mbarrier.go", "z_error.go",
-                "z_slice.go", "z_string.go", "utf8.go", "stubs.go"]
+                "z_slice.go", "z_string.go", "utf8.go", "stubs.go", "z_cgo.go"]
 
 NATIVE_MAIN = r'''package main
 
@@ -776,6 +881,98 @@ import (
 	rt "github.com/goplus/llgo/runtime/internal/vn/rt"
 )
 
+func hx(b []byte) string {
+	if len(b) == 0 {
+		return "-"
+	}
+	return hex.EncodeToString(b)
+}
+
+func unhx(s string) []byte {
+	if s == "-" {
+		return nil
+	}
+	b, _ := hex.DecodeString(s)
+	return b
+}
+
+// cgo gostrn|gostr|gobytes CFG HEXBUF OFF N HEXSCRIBBLE : C buffer HEXBUF (+ NUL); convert at OFF (length N) with the REAL
+// z_cgo.go function; report the Go value; C overwrites its buffer with HEXSCRIBBLE; report the Go value again
+// cgo cstring|cbytes HEX : Go value -> C copy (real CString / CBytes); the Go source is overwritten; report the C copy;
+// cstring continues with GoString of the copy, overwrites the C copy and reports the Go string
+func cgo(f []string) string {
+	defer func() { recover() }()
+	switch {
+	case len(f) == 7 && (f[1] == "gostrn" || f[1] == "gostr" || f[1] == "gobytes" || f[1] == "zstrn" || f[1] == "zstr"):
+		src := unhx(f[3])
+		buf := make([]byte, len(src)+1)
+		copy(buf, src)
+		off, _ := strconv.Atoi(f[4])
+		n, _ := strconv.Atoi(f[5])
+		scr := unhx(f[6])
+		p := (*int8)(unsafe.Pointer(&buf[off]))
+		var now, later string
+		switch f[1] {
+		case "gostrn":
+			g := rt.GoStringN(p, n)
+			now = hx([]byte(g))
+			copy(buf, scr)
+			later = hx([]byte(g))
+		case "gostr":
+			g := rt.GoString(p)
+			now = hx([]byte(g))
+			copy(buf, scr)
+			later = hx([]byte(g))
+		case "zstr": // c.GoString(p) = llgo.string -> z_string.go StringFromCStr
+			g := rt.StringFromCStr(p)
+			now = hx(rt.VerifStringBytes(g))
+			copy(buf, scr)
+			later = hx(rt.VerifStringBytes(g))
+		case "zstrn": // c.GoString(p, n) -> z_string.go StringFrom
+			g := rt.StringFrom(unsafe.Pointer(p), n)
+			now = hx(rt.VerifStringBytes(g))
+			copy(buf, scr)
+			later = hx(rt.VerifStringBytes(g))
+		case "gobytes":
+			g := rt.GoBytes(p, n)
+			now = hx(g)
+			copy(buf, scr)
+			later = hx(g)
+		}
+		return "now=" + now + " later=" + later
+	case len(f) == 3 && f[1] == "cbytes":
+		v := unhx(f[2])
+		if v == nil {
+			v = []byte{}
+		}
+		p := rt.CBytes(v) // &b[0] of an empty slice panics (-> "panic") unless the copy is guarded
+		n := len(v)
+		for i := range v {
+			v[i] = 0x5a
+		}
+		return "c=" + hx(append([]byte(nil), unsafe.Slice((*byte)(unsafe.Pointer(p)), n)...))
+	case len(f) == 3 && f[1] == "cstring":
+		v := unhx(f[2])
+		n := len(v)
+		var gs string
+		if n > 0 {
+			gs = unsafe.String(&v[0], n)
+		}
+		p := rt.CString(gs)
+		for i := range v {
+			v[i] = 0x5a
+		}
+		cc := append([]byte(nil), unsafe.Slice((*byte)(unsafe.Pointer(p)), n)...)
+		back := rt.GoString(p)
+		cb := unsafe.Slice((*byte)(unsafe.Pointer(p)), n+1)
+		for i := range cb {
+			cb[i] = 0x5a
+		}
+		return "c=" + hx(cc) + " back=" + hx([]byte(back))
+	}
+	return "bad-op"
+}
+
 // cstr DEST LEN HEX : CStrCopy into a dirty buffer of LEN bytes at DEST, then StringFromCStr -> ok HEX
 func main() {
 	in := bufio.NewScanner(os.Stdin)
@@ -784,6 +981,14 @@ func main() {
 	defer out.Flush()
 	for in.Scan() {
 		f := strings.Fields(in.Text())
+		if len(f) > 0 && f[0] == "cgo" {
+			r := cgo(f)
+			if r == "" {
+				r = "panic"
+			}
+			fmt.Fprintln(out, r)
+			continue
+		}
 		if len(f) != 4 || f[0] != "cstr" {
 			fmt.Fprintln(out, "bad-op")
 			continue
@@ -887,7 +1092,100 @@ def cstr_native(ctx, modeld, rng, n):
     if mism and not ctx.violations:
         ctx.report_broken("correspondence C09 C-string helpers real-vs-model", {"mismatches": mism})
     ctx.log("C strings (native z_string.go): %d cases, mismatches %d, spec failures %d" % (len(lines), mism, specfail))
-    return {"cases": len(lines), "with_interior_nul": nul, "mismatches": mism, "spec_failures": specfail}
+    st = {"cases": len(lines), "with_interior_nul": nul, "mismatches": mism, "spec_failures": specfail}
+    st["cgo"] = cgo_native(ctx, binp, modeld, rng, n) if os.environ.get("VERIF_C09_ROUND2", "1") != "0" else {"cases": 0}
+    st["cases"] += st["cgo"]["cases"]
+    return st
+
+
+def cgo_lines(rng, n):
+    """histories for the cgo helpers of z_cgo.go: (C buffer, conversion at an offset, what C writes into the buffer afterwards)"""
+    out = []
+    bufs = [b"first one", b"a", b"ab", b"\xff\x80z", bytes(range(1, 60)), b"x" * 200, b"hello\x00world", b"\x00", b"tail\x00"]
+    while len(bufs) < n:
+        ln = rng.choice([1, 2, 3, 7, 8, 9, 15, 16, 17, 31, 64, 100])
+        b = bytes(rng.randint(1, 255) for _ in range(ln))
+        if rng.random() < 0.25:
+            pos = rng.randrange(len(b))
+            b = b[:pos] + b"\x00" + b[pos + 1:]
+        bufs.append(b)
+    for i, b in enumerate(bufs):
+        off = rng.choice([0, 0, 1, len(b) // 2, len(b) - 1]) if len(b) > 1 else 0
+        room = len(b) - off
+        nn = rng.choice([0, 1, room, room, max(1, room // 2)])
+        scr = bytes((x ^ 0x5A) or 0x41 for x in b) if i % 3 else b"Z" * len(b)    # never equal to the original at any position
+        for op in ("gostrn", "gostr", "gobytes", "zstrn", "zstr"):
+            out.append(("cgo %s %%s %s %d %d %s" % (op, hexs(b), off, nn, hexs(scr)), op, b, off, nn))
+    vals = [b"", b"a", b"hello", b"\xff\xfe\x01", bytes(range(1, 256)), b"q" * 300]
+    while len(vals) < max(8, n // 4):
+        vals.append(bytes(rng.randint(1, 255) for _ in range(rng.choice([1, 2, 5, 8, 16, 33]))))
+    for v in vals:
+        out.append(("cgo cstring %s" % hexs(v), "cstring", v, 0, 0))
+        out.append(("cgo cbytes %s" % hexs(v), "cbytes", v, 0, 0))
+    return out
+
+
+def cgo_native(ctx, binp, modeld, rng, n):
+    """z_cgo.go (verbatim native copy) against Model/CgoStr.lean, and against the property: a converted value is a COPY —
+    it reads the same after the other side has overwritten its buffer"""
+    items = cgo_lines(rng, max(12, n // 8))
+    real, _, err = run_lines([binp], [it[0].replace("%s", "real") for it in items])
+    if len(real) != len(items):
+        raise HarnessBuildError("native cgo harness died: " + err[-2000:])
+    mcopy, _, _ = run_lines([modeld], [it[0].replace("%s", "copy") for it in items])
+    malias, _, _ = run_lines([modeld], [it[0].replace("%s", "alias") for it in items])
+    # which variant of GoBytes does the tree implement?  (before / after "C.GoBytes returns a copy")
+    gb = [i for i, it in enumerate(items) if it[1] == "gobytes"]
+    gobytes_variant = "copy" if all(real[i] == mcopy[i] for i in gb) else ("alias" if all(real[i] == malias[i] for i in gb) else "neither")
+    # ... and of CBytes?  (before / after the `len(b) > 0` guard)
+    ce = [i for i, it in enumerate(items) if it[1] == "cbytes" and not it[2]]
+    cbytes_variant = "guard" if all(real[i] == "c=-" for i in ce) else "index"
+    mguard, _, _ = run_lines([modeld], [it[0] + " guard" for it in items if it[1] == "cbytes"])
+    mguard = dict(zip([i for i, it in enumerate(items) if it[1] == "cbytes"], mguard))
+    mism, specfail, reported = [], 0, 0
+    for i, (line, op, b, off, nn) in enumerate(items):
+        model = malias[i] if (op == "gobytes" and gobytes_variant == "alias") else mcopy[i]
+        if op == "cbytes" and cbytes_variant == "guard":
+            model = mguard[i]
+        if real[i] != model:
+            mism.append((line.replace("%s", "real"), real[i], model))
+        # the property, independent of the model
+        f = dict(x.split("=", 1) for x in real[i].split(" ") if "=" in x)
+        if op in ("gostrn", "gobytes", "zstrn"):
+            want = b[off:off + nn]
+        elif op in ("gostr", "zstr"):
+            rest = b[off:]
+            want = rest[:rest.index(0)] if 0 in rest else rest
+        else:
+            want = b
+        ok = True
+        if op in ("gostrn", "gostr", "gobytes", "zstrn", "zstr"):
+            ok = f.get("now") == hexs(want) and f.get("later") == hexs(want)
+        elif op == "cbytes":
+            ok = f.get("c") == hexs(want)
+        elif 0 not in b:
+            ok = f.get("c") == hexs(want) and f.get("back") == hexs(want)
+        if not ok:
+            specfail += 1
+            rep = {"line": line.replace("%s", "real"), "real": real[i], "expected_bytes": hexs(want),
+                   "history": "C buffer -> %s -> C overwrites its buffer -> Go reads the value again" % op}
+            if op == "gobytes" and f.get("now") == hexs(want):
+                if reported & 1 == 0:
+                    reported |= 1
+                    ctx.report(K_GOBYTES, "C.GoBytes(p, n) returns a window onto the C buffer, not a copy: the Go slice changes when C reuses the buffer", rep)
+            elif op == "cbytes" and not b and real[i] == "panic":
+                ctx.report(K_CBYTES, "C.CBytes([]byte{}) panics with 'index out of range' instead of returning a zero-length C buffer", rep)
+            elif reported < 6:
+                reported += 2
+                ctx.report("cgo:native:" + line.replace("%s", "real").replace(" ", "_"), "%s: the converted value does not keep its bytes" % op, rep)
+    if mism:
+        ctx.broken.append("cgo helpers model vs native z_cgo.go: %d lines differ, e.g. %s" % (len(mism), mism[0]))
+        if not ctx.violations:
+            ctx.report_broken("correspondence C09 cgo helpers (z_cgo.go) real-vs-model", {"first": mism[:5]})
+    ctx.log("cgo helpers (native z_cgo.go): %d histories, mismatches %d, spec failures %d, GoBytes variant %s, CBytes variant %s" %
+            (len(items), len(mism), specfail, gobytes_variant, cbytes_variant))
+    return {"cases": len(items), "mismatches": len(mism), "spec_failures": specfail, "gobytes_variant": gobytes_variant,
+            "cbytes_variant": cbytes_variant}
 
 
 CSTR_GO = r'''package main
@@ -896,12 +1194,30 @@ import (
 	"unsafe"
 
 	"github.com/goplus/lib/c"
+
+	_ "verifprog/cs"
 )
 
-const (
-	LLGoFiles   = "_wrap/s.c"
-	LLGoPackage = "link"
-)
+// The C side is linked through package verifprog/cs (LLGoFiles): a MAIN package that itself declares LLGoPackage = "link"
+// gets no call to runtime.init, so panics (and recover) would not work in this program.
+
+// the compiler intrinsics C.GoString / C.GoStringN / C.GoBytes / C.CString / C.CBytes resolve to (cl/instr.go), i.e.
+// runtime/internal/runtime/z_cgo.go; cgo's preamble machinery itself cannot be built in the sandbox
+
+//go:linkname cgoGoString llgo._Cfunc_GoString
+func cgoGoString(p *int8) string
+
+//go:linkname cgoGoStringN llgo._Cfunc_GoStringN
+func cgoGoStringN(p *int8, n int32) string
+
+//go:linkname cgoGoBytes llgo._Cfunc_GoBytes
+func cgoGoBytes(p unsafe.Pointer, n int32) []byte
+
+//go:linkname cgoCString llgo._Cfunc_CString
+func cgoCString(s string) *int8
+
+//go:linkname cgoCBytes llgo._Cfunc_CBytes
+func cgoCBytes(b []byte) unsafe.Pointer
 
 //go:linkname scheck C.scheck
 func scheck(k int32, p *c.Char) int32
@@ -909,39 +1225,151 @@ func scheck(k int32, p *c.Char) int32
 //go:linkname sget C.sget
 func sget(k int32) *c.Char
 
+//go:linkname sbuf C.sbuf
+func sbuf(k int32) *c.Char
+
+//go:linkname sscribble C.sscribble
+func sscribble(k int32)
+
+//go:linkname sfree C.sfree
+func sfree(p unsafe.Pointer, n int32)
+
 //go:linkname sverify C.sverify
-func sverify(k int32, p *byte, n int32) int32
+func sverify(k int32, p *byte, n int32, want int32) int32
 
 //go:linkname sdone C.sdone
-func sdone(k int32, a int32, b int32, cc int32, n int32)
+func sdone(k int32, mask int32, n int32)
 
 var strs = []string{@STRS@}
 
+func bit(i uint, ok int32) int32 {
+	if ok != 0 {
+		return 1 << i
+	}
+	return 0
+}
+
+func min32(a, b int32) int32 {
+	if a < b {
+		return a
+	}
+	return b
+}
+
 func main() {
 	for i, s := range strs {
-		r1 := scheck(int32(i), c.AllocaCStr(s))
-		g := c.GoString(sget(int32(i)))
-		r2 := sverify(int32(i), unsafe.StringData(g), int32(len(g)))
-		g2 := c.GoString(sget(int32(i)), 1)
-		r3 := int32(0)
-		if len(s) > 0 && len(g2) == 1 && g2[0] == s[0] {
-			r3 = 1
+		k := int32(i)
+		L := int32(len(s))
+		m := int32(0)
+		// Go -> C: AllocaCStr
+		m |= bit(0, scheck(k, c.AllocaCStr(s)))
+		// C -> Go, checked at once (C's constant table)
+		g := c.GoString(sget(k))
+		m |= bit(1, sverify(k, unsafe.StringData(g), int32(len(g)), L))
+		g2 := c.GoString(sget(k), min32(L, 1))
+		m |= bit(2, sverify(k, unsafe.StringData(g2), int32(len(g2)), min32(L, 1)))
+		// C -> Go with a HISTORY: C hands out a buffer it owns, Go converts, C reuses (and frees) the buffer, Go reads
+		p := sbuf(k)
+		n3 := min32(L, 3)
+		a1 := cgoGoString(p)
+		a2 := cgoGoStringN(p, n3)
+		a3 := cgoGoBytes(unsafe.Pointer(p), L)
+		a4 := c.GoString(p)
+		a5 := c.GoString(p, n3)
+		sscribble(k)
+		m |= bit(3, sverify(k, unsafe.StringData(a1), int32(len(a1)), L))
+		m |= bit(4, sverify(k, unsafe.StringData(a2), int32(len(a2)), n3))
+		m |= bit(5, sverify(k, unsafe.SliceData(a3), int32(len(a3)), L))
+		m |= bit(6, sverify(k, unsafe.StringData(a4), int32(len(a4)), L))
+		m |= bit(7, sverify(k, unsafe.StringData(a5), int32(len(a5)), n3))
+		// Go -> C copies: C.CString, C.CBytes; the Go side then changes its slice, C frees its copy
+		cs := cgoCString(s)
+		m |= bit(8, scheck(k, cs))
+		if L > 0 {
+			src := []byte(s)
+			cb := cgoCBytes(src)
+			for j := range src {
+				src[j] ^= 0x5a
+			}
+			m |= bit(9, sverify(k, (*byte)(cb), L, L))
+			sfree(cb, L)
+		} else {
+			m |= bit(9, 1) // the empty slice is checked on its own below: it may panic
 		}
-		sdone(int32(i), r1, r2, r3, int32(len(g)))
+		back := cgoGoString(cs)
+		sfree(unsafe.Pointer(cs), L+1)
+		m |= bit(10, sverify(k, unsafe.StringData(back), int32(len(back)), L))
+		sdone(k, m, int32(len(a1)))
 	}
+	// nil / zero-length corner cases
+	e := int32(0)
+	if cgoGoString(nil) == "" {
+		e |= 1
+	}
+	if cgoGoStringN(sget(0), 0) == "" {
+		e |= 2
+	}
+	if len(cgoGoBytes(unsafe.Pointer(sget(0)), 0)) == 0 {
+		e |= 4
+	}
+	sdone(-1, e, 0)
+	sdone(-2, cbytesEmpty(), 0)
 }
+
+// C.CBytes of an empty slice is a valid (zero-length) C buffer
+func cbytesEmpty() (ok int32) {
+	defer func() {
+		if recover() != nil {
+			ok = 0
+		}
+	}()
+	p := cgoCBytes([]byte{})
+	sfree(p, 0)
+	return 1
+}
+'''
+
+CSTR_CS_GO = '''package cs
+
+const (
+	LLGoFiles   = "_wrap/s.c"
+	LLGoPackage = "link"
+)
 '''
 
 CSTR_C = r'''#include <string.h>
 #include <stdint.h>
 #include <stdio.h>
+#include <stdlib.h>
 static const char *tab[] = {@TAB@};
 static const int tabn[] = {@TABN@};
+static char sbuf_static[512];
+static char *sbuf_cur; static int sbuf_heap;
 int32_t scheck(int32_t k, const char *p) { return strlen(p) == (size_t)tabn[k] && memcmp(p, tab[k], tabn[k]) == 0; }
 const char *sget(int32_t k) { return tab[k]; }
-int32_t sverify(int32_t k, const char *p, int32_t n) { return n == tabn[k] && (n == 0 || memcmp(p, tab[k], n) == 0); }
-void sdone(int32_t k, int32_t a, int32_t b, int32_t c, int32_t n) { printf("S %d %d %d %d %d\n", k, a, b, c, n); fflush(stdout); }
+/* a buffer C owns, holding string k: static storage for even k, malloc'd for odd k */
+char *sbuf(int32_t k) {
+  sbuf_heap = k & 1;
+  sbuf_cur = sbuf_heap ? malloc(tabn[k] + 1) : sbuf_static;
+  memcpy(sbuf_cur, tab[k], tabn[k] + 1);
+  return sbuf_cur;
+}
+/* C reuses its buffer: every byte changes; the malloc'd one is freed as well */
+void sscribble(int32_t k) {
+  volatile char *q = sbuf_cur;   /* volatile: clang-14's loop vectoriser crashes under -opaque-pointers (sandbox limit) */
+  for (int i = 0; i <= tabn[k]; i++) q[i] = (char)(((unsigned char)tab[k][i] ^ 0x5A) ? ((unsigned char)tab[k][i] ^ 0x5A) : 0x41);
+  if (sbuf_heap) free(sbuf_cur);
+}
+void sfree(void *p, int32_t n) { if (p) { memset(p, 0x5A, n); free(p); } }
+/* the first `want` bytes of string k, exactly */
+int32_t sverify(int32_t k, const char *p, int32_t n, int32_t want) { return n == want && (n == 0 || memcmp(p, tab[k], n) == 0); }
+void sdone(int32_t k, int32_t mask, int32_t n) { printf("S %d %d %d\n", k, mask, n); fflush(stdout); }
 '''
+
+CSTR_BITS = ["AllocaCStr seen by C", "c.GoString(p) at once", "c.GoString(p, n) at once", "C.GoString(p) after C reused its buffer",
+             "C.GoStringN(p, n) after C reused its buffer", "C.GoBytes(p, n) after C reused its buffer",
+             "c.GoString(p) [llgo.string] after C reused its buffer", "c.GoString(p, n) [llgo.string] after C reused its buffer",
+             "C.CString(s) seen by C", "C.CBytes(b) after Go changed b", "C.GoString(C.CString(s)) after C freed the copy"]
 
 
 def cstr_e2e(ctx, rng, n, opts=("-O0", "-O2")):
@@ -951,7 +1379,8 @@ def cstr_e2e(ctx, rng, n, opts=("-O0", "-O2")):
     c_lit = ", ".join('"' + "".join("\\%03o" % x for x in b) + '"' for b in strs)
     d = os.path.join(ctx.scratch, "cstr")
     gomod = "module verifprog\n\ngo 1.24\n\nrequire github.com/goplus/lib v0.3.1\n"
-    e2e.write_module(d, {"main.go": CSTR_GO.replace("@STRS@", go_lit), "_wrap/s.c": CSTR_C.replace("@TAB@", c_lit).replace("@TABN@", ", ".join(str(len(b)) for b in strs)),
+    e2e.write_module(d, {"main.go": CSTR_GO.replace("@STRS@", go_lit), "cs/cs.go": CSTR_CS_GO,
+                         "cs/_wrap/s.c": CSTR_C.replace("@TAB@", c_lit).replace("@TABN@", ", ".join(str(len(b)) for b in strs)),
                          "go.mod": gomod})
     if os.path.exists(os.path.join(REPO, "go.sum")):
         shutil.copy(os.path.join(REPO, "go.sum"), os.path.join(d, "go.sum"))
@@ -967,13 +1396,40 @@ def cstr_e2e(ctx, rng, n, opts=("-O0", "-O2")):
         got = {}
         for line in out.split("\n"):
             f = line.split()
-            if len(f) == 6 and f[0] == "S":
+            if len(f) == 4 and f[0] == "S":
                 got[int(f[1])] = [int(x) for x in f[2:]]
+        full = (1 << len(CSTR_BITS)) - 1
+        reported = 0
         for i, b in enumerate(strs):
-            exp = [1, 1, 1 if len(b) > 0 else 0, len(b)]
-            if got.get(i) != exp:
-                res["failures"] += 1
-                ctx.report("cstr:e2e:%s:%s" % (opt, hexs(b)), "C string round trip (AllocaCStr / GoString) lost bytes at %s" % opt,
-                           {"bytes": hexs(b), "got": got.get(i), "expected": exp, "opt": opt})
-    ctx.log("C strings (e2e AllocaCStr/GoString): %d strings x %s, failures %d" % (len(strs), "/".join(opts), res["failures"]))
+            exp = [full, len(b)]
+            g = got.get(i)
+            if g == exp:
+                continue
+            bad_bits = [j for j in range(len(CSTR_BITS)) if g is None or not (g[0] >> j) & 1]
+            rep = {"bytes": hexs(b), "got": g, "expected": exp, "opt": opt, "failed": [CSTR_BITS[j] for j in bad_bits],
+                   "history": "C hands out a buffer holding the bytes; Go converts; C overwrites (and frees) the buffer; Go passes the value back to C for comparison"}
+            if g is not None and bad_bits == [5] and g[1] == len(b):
+                res["gobytes_alias"] = res.get("gobytes_alias", 0) + 1
+                if not res.get("gobytes_reported"):
+                    res["gobytes_reported"] = True
+                    ctx.report(K_GOBYTES, "C.GoBytes(p, n) returns a window onto the C buffer, not a copy (%s): the Go slice changes when C reuses the buffer" % opt, rep)
+                continue
+            res["failures"] += 1
+            if reported < 3:
+                reported += 1
+                ctx.report("cstr:e2e:%s:%s:%s" % (opt, "+".join(str(j) for j in bad_bits), hexs(b)),
+                           "bytes lost across the Go/C boundary at %s: %s" % (opt, "; ".join(CSTR_BITS[j] for j in bad_bits[:3])), rep)
+        if got.get(-2) != [1, 0]:
+            res["cbytes_empty_panics"] = res.get("cbytes_empty_panics", 0) + 1
+            if not res.get("cbytes_reported"):
+                res["cbytes_reported"] = True
+                ctx.report(K_CBYTES, "C.CBytes([]byte{}) does not return a (zero-length) C buffer: it panics with 'index out of range' (%s)" % opt,
+                           {"input": "C.CBytes([]byte{})", "got": got.get(-2), "expected": [1, 0], "opt": opt, "exit": rc})
+        if got.get(-1) != [7, 0]:
+            res["failures"] += 1
+            ctx.report("cstr:e2e:%s:nil-and-zero-length" % opt, "C.GoString(nil) / C.GoStringN(p, 0) / C.GoBytes(p, 0) is not empty", {"got": got.get(-1), "opt": opt})
+    res.pop("gobytes_reported", None)
+    res.pop("cbytes_reported", None)
+    ctx.log("C strings (e2e AllocaCStr / c.GoString / C.GoString[N] / C.GoBytes / C.CString / C.CBytes with buffer reuse): %d strings x %s, failures %d%s" %
+            (len(strs), "/".join(opts), res["failures"], (", GoBytes aliasing (known) on %d" % res["gobytes_alias"]) if res.get("gobytes_alias") else ""))
     return res
